@@ -7,6 +7,7 @@
 #include <float.h>
 #include <inttypes.h>
 #include <math.h>
+#include <pthread.h>
 #include <stdio.h>
 #include <stdlib.h>
 #include <string.h>
@@ -911,6 +912,94 @@ static void run_zigslow(void)
     }
 }
 
+static void on_fresh_thread(void (*fn)(void));
+static const struct seqs *sq_s;
+static double sq_x, sq_r, sq_mirror;
+static uint64_t sq_used;
+static bool sq_ran;
+
+static void seq_calls(void)
+{
+    const struct seqs *s = sq_s;
+    cmi_verif_sfc64_override = override_fn;
+    env_reset();
+    sq_x = lib_call(s);
+    sq_used = ndraws;
+    sq_ran = runaway;
+    env_reset();
+    sq_r = ref_call(s);
+    /* the normal sampler takes its sign from bit 63 of the first raw word and nothing else from it:
+     * flipping that bit must negate the sample exactly, whatever branch of the ziggurat is taken */
+    sq_mirror = NAN;
+    /* (on the hot path the word is used as a two's complement integer instead: no such pairing there) */
+    if ((s->id == 0 || s->id == 1) && (script[0] & 0xff) > vx_nor_zig_max) {
+        script[0] ^= 1ull << 63;
+        env_reset();
+        sq_mirror = lib_call(s);
+        script[0] ^= 1ull << 63;
+    }
+    cmi_verif_sfc64_override = NULL;
+}
+
+/*
+ * "history": what a sampler returns for given raw words does not depend on which samplers, with which parameters,
+ * the thread called before. Every ordered triple of the sampler/parameter entries: the first two are called, then
+ * the third, whose value must be bit-identical to the one it gives on a thread that has called nothing else.
+ */
+static const struct seqs *h3_s[3];
+static double h3_after, h3_alone;
+static bool h3_ran;
+
+static void h3_after_calls(void)
+{
+    cmi_verif_sfc64_override = override_fn;
+    for (int k = 0; k < 3; k++) {
+        env_reset();
+        h3_after = lib_call(h3_s[k]);
+    }
+    h3_ran = runaway;
+    cmi_verif_sfc64_override = NULL;
+}
+
+static void h3_alone_call(void)
+{
+    cmi_verif_sfc64_override = override_fn;
+    env_reset();
+    h3_alone = lib_call(h3_s[2]);
+    cmi_verif_sfc64_override = NULL;
+}
+
+static void run_history(void)
+{
+    for (int k = 0; k < 3; k++) {
+        h3_s[k] = &SEQS[vx_choose_free(NSEQS, k == 2 ? "sampler" : "earlier-call")];
+    }
+    static const int SC[2][2] = { { 3, 17 }, { 29, 8 } };
+    const int v = vx_choose_free(2, "raw-words");
+    script_n = 2;
+    script[0] = OMEGA[SC[v][0] % nomega];
+    script[1] = OMEGA[SC[v][1] % nomega];
+    if (vx_opt_int("fptrap", 0) && (h3_s[0]->id == 23 || h3_s[1]->id == 23 || h3_s[2]->id == 23)) {
+        return; /* see run_seq */
+    }
+    on_fresh_thread(h3_after_calls);
+    on_fresh_thread(h3_alone_call);
+    vx_transitions(4);
+    uint64_t key[4] = { (uint64_t)(h3_s[0] - SEQS), (uint64_t)(h3_s[1] - SEQS), (uint64_t)(h3_s[2] - SEQS), (uint64_t)v };
+    vx_state(vx_hash_bytes(77, key, sizeof key));
+    vx_outcome(vx_hash_bytes(78, &h3_after, 8));
+    if (h3_ran) {
+        return;
+    }
+    if (memcmp(&h3_after, &h3_alone, sizeof(double)) != 0 && !(isnan(h3_after) && isnan(h3_alone))) {
+        char rule[160];
+        snprintf(rule, sizeof rule, "history:%s:depends-on-earlier-calls", h3_s[2]->name);
+        FAIL(rule, "after %s and %s on the same thread %s gives %.17g for the raw words %#" PRIx64 " %#" PRIx64 " ..., "
+             "on a thread that called nothing before %.17g", h3_s[0]->name, h3_s[1]->name, h3_s[2]->name, h3_after,
+             script[0], script[1], h3_alone);
+    }
+}
+
 static void run_seq(void)
 {
     const int K = (int)vx_opt_int("K", 2);
@@ -925,24 +1014,13 @@ static void run_seq(void)
         script[k] = OMEGA[vx_choose_free(nomega, "raw")];
     }
     char rule[160];
-    cmi_verif_sfc64_override = override_fn;
-    env_reset();
-    const double x = lib_call(s);
-    const uint64_t used = ndraws;
-    const bool ran = runaway;
-    env_reset();
-    double r = ref_call(s);
-    /* the normal sampler takes its sign from bit 63 of the first raw word and nothing else from it:
-     * flipping that bit must negate the sample exactly, whatever branch of the ziggurat is taken */
-    double mirror = NAN;
-    /* (on the hot path the word is used as a two's complement integer instead: no such pairing there) */
-    if ((s->id == 0 || s->id == 1) && (script[0] & 0xff) > vx_nor_zig_max) {
-        script[0] ^= 1ull << 63;
-        env_reset();
-        mirror = lib_call(s);
-        script[0] ^= 1ull << 63;
-    }
-    cmi_verif_sfc64_override = NULL;
+    /* the calls are made on a thread of their own: whatever the library keeps per thread between calls (cached
+     * constants of the last parameters) starts from its initial state in every execution, also in a replay */
+    sq_s = s;
+    on_fresh_thread(seq_calls);
+    const double x = sq_x, r = sq_r, mirror = sq_mirror;
+    const uint64_t used = sq_used;
+    const bool ran = sq_ran;
     vx_transitions(used);
     vx_state(vx_hash_bytes((uint64_t)(s - SEQS), script, sizeof(uint64_t) * (size_t)K));
     vx_outcome(vx_hash_bytes((uint64_t)(s - SEQS), &x, 8));
@@ -988,7 +1066,27 @@ static void run_one(void)
     else if (!strcmp(mode, "lattice")) run_lattice();
     else if (!strcmp(mode, "aliasvec")) run_aliasvec();
     else if (!strcmp(mode, "zigslow")) run_zigslow();
+    else if (!strcmp(mode, "history")) run_history();
     else run_seq();
+}
+
+static void (*fresh_fn)(void);
+static void *fresh_tramp(void *a)
+{
+    (void)a;
+    (*fresh_fn)();
+    return NULL;
+}
+
+static void on_fresh_thread(void (*fn)(void))
+{
+    pthread_t th;
+    fresh_fn = fn;
+    if (pthread_create(&th, NULL, fresh_tramp, NULL) != 0) {
+        (*fn)();
+        return;
+    }
+    pthread_join(th, NULL);
 }
 
 static void ginit(void)
